@@ -20,7 +20,7 @@ THEOREMS = [(n, _PINS[n]) for n in (
     "lifetime_equation", "lifetime_max_age_among", "lifetime_kvarn_unit",
     "cleared_is_miss", "cleared_page_is_recomputed", "cleared_all_is_miss", "not_found_is_recomputed", "unsafe_or_non_get_is_recomputed",
     "computed_once_history", "not_modified_rule", "not_modified_arithmetic",
-    "vary_push_admission_refuted", "variant_lifetime_refuted", "clear_unprimed_refuted")]
+    "vary_push_admission_refuted", "variant_lifetime_refuted", "clear_unprimed_refuted", "ims_unstored_variant_refuted")]
 RULE = ("kvarn::handle_cache in process (component pipex.run, harness/src/c04x.rs) with handlers whose body carries their invocation number, "
         "against the Coq cache model Model/CacheX.v (correspondence) and against expectations derived from the property text (oracle: "
         "must-recompute / must-not-recompute / status / stream per request). (A) admission product: server preference x method x status "
@@ -40,8 +40,6 @@ ASSUMPTIONS = [
     "moka's eviction under capacity pressure is not modelled (<= 16 keys per run, capacity 1024)",
     "If-Modified-Since dates are generated relative to the aligned scenario start; the `time` crate's HTTP-date parser is abstracted to its result",
     "ServerCachePreference::MaxAge(d) ignores d (observation, outside the property's wording)",
-    "a 304 answer to If-Modified-Since is decided before the variant is looked up: a client holding the page's last-modified date gets 304 "
-    "also for a variant that is not (or must not be) stored — within the property's wording (the date test refers to the stored entry), recorded as an observation",
     "sequential histories; the second lookup inside handle_vary_missing is collapsed (interleavings are C05's subject)",
     "kvarn-cache-control: N<unit> with N*unit >= 2^32 panics in a build with overflow checks (C02 known class kvarn-cache-control-overflow); "
     "the pipeline generators stay below, the direct component cc.parse compares the panic outcome too",
@@ -68,7 +66,7 @@ LEVEL_NOTE = ("Trusted: Coq kernel; extraction (sample re-checked in-kernel); tr
               "admissible and that the handler's responses for the path agree on query-matters-ness and outlive the deadline. No axioms.")
 TECHNIQUE = "Coq proof (invariants over all histories of the cache model) + differential correspondence with counting handlers and timed histories"
 
-REPORT = [b"?last-modified", b"vary"]
+REPORT = [b"vary"]      # last-modified is the cache's own stamp: not part of the property, not pinned
 CC_FORMS = {
     "none": [],
     "max-age=1000": [(b"cache-control", b"max-age=1000")],
@@ -193,6 +191,15 @@ def vary_lifetime(rng):
         exp = [("compute", 200, 0), ("compute", 200, 0), None, ("hit", 200, 0), ("hit", 200, 0), None,
                ("compute", 200, 0) if second else None, ("compute", 200, 0) if first and not second else None]
         out.append(case(c, ops, "vary-lifetime", exp))
+    # a variant pushed 1.4 s after the entry was stored must not restart the entry's 2 s lifetime
+    A = pipe.H(b"/v", kind=2, body=b"a=", spref=2, cpref=0, compress=False, headers=[(b"cache-control", b"max-age=2")])
+    Bh = pipe.H(b"/v", kind=2, body=b"b=", spref=2, cpref=0, compress=False)
+    xh = pipe.XH(b"/v", b"x-v", [(b"a", A, 0, 0), (b"b", Bh, 0, 0)])
+    ra = pipe.req(b"/v", headers=[(b"x-v", b"a")])
+    rb = pipe.req(b"/v", headers=[(b"x-v", b"b")])
+    ops = [ra, pipe.wait(1400), rb, ra, pipe.wait(1600), ra]
+    out.append(case(base_cfg(xhandlers=[xh], vary=VARY, slack=SLACK), ops, "vary-lifetime/restart",
+                    [("compute", 200, 0), None, ("compute", 200, 0), ("hit", 200, 0), None, ("compute", 200, 0)]))
     return out
 
 
@@ -205,9 +212,15 @@ def lifetimes(rng):
              ("kvarn-2s+cc", [(b"kvarn-cache-control", b" 2s"), (b"cache-control", b"max-age=1000")])]
     for name, hdr in forms:
         h = pipe.H(b"/c", kind=2, body=b"n=", headers=hdr, spref=rng.choice([1, 2, 3]), cpref=0)
-        ops = [pipe.req(b"/c"), pipe.wait(500), pipe.req(b"/c"), pipe.wait(2700), pipe.req(b"/c"), pipe.req(b"/c", method=b"HEAD")]
+        # probes: 0.5 s (fresh) and 2.8 s — less than a whole second past the lifetime, so that an expiry test in whole seconds shows
+        ops = [pipe.req(b"/c"), pipe.wait(500), pipe.req(b"/c"), pipe.wait(2300), pipe.req(b"/c"), pipe.req(b"/c", method=b"HEAD")]
         out.append(case(base_cfg([h], slack=SLACK), ops, "lifetime/" + name,
                         [("compute", 200, 0), None, ("hit", 200, 0), None, ("compute", 200, 0), ("hit", 200, 0)]))
+    # max-age=0 / 0s: stored, but never served later (any later instant is more than 0 s after it was stored)
+    for name, hdr in (("max-age=0", [(b"cache-control", b"max-age=0")]), ("kvarn-0s", [(b"kvarn-cache-control", b"0s")])):
+        h = pipe.H(b"/c", kind=2, body=b"n=", headers=hdr, spref=2, cpref=0)
+        ops = [pipe.req(b"/c"), pipe.wait(60), pipe.req(b"/c"), pipe.wait(60), pipe.req(b"/c", method=b"HEAD")]
+        out.append(case(base_cfg([h]), ops, "lifetime/" + name, [("compute", 200, 0), None, ("compute", 200, 0), None, ("compute", 200, 0)]))
     return out
 
 
@@ -226,6 +239,18 @@ def clears(rng):
     ops = [pipe.req(b"/c?x=1"), pipe.req(b"/c?x=2"), pipe.req(b"/c"), pipe.req(b"/d?x=1"), pipe.req(b"/d?x=2"), pipe.req(b"/d?x=1"), pipe.req(b"/d"),
            pipe.req(b"/d?x=2", method=b"HEAD")]
     out.append(case(base_cfg([h, h2]), ops, "keys", [C, H_, H_, C, C, H_, C, H_]))
+    # both keys of one page occupied: the handler says QueryMatters when asked with a query (x-k: q) and Full for the bare form;
+    # requested with the query first and without it second. clear_page on either spelling: the next request for THAT spelling recomputes
+    # (a surviving path-only entry would answer /p?q too: every lookup falls back from the path?query key to the path key)
+    Q = pipe.H(b"/p", kind=2, body=b"q=", spref=1, cpref=0)
+    F = pipe.H(b"/p", kind=2, body=b"form=", spref=2, cpref=0)
+    xh = pipe.XH(b"/p", b"x-k", [(b"q", Q, 0, 0), (b"", F, 0, 0)])
+    rq = pipe.req(b"/p?q=a", headers=[(b"x-k", b"q")])
+    rf = pipe.req(b"/p")
+    for cleared, after in ((b"/p?q=a", [(rq, C), (rf, None), (rq, H_)]), (b"/p", [(rf, C), (rq, None), (rf, H_)]),
+                           (b"/p?other", [(rf, C), (rq, H_)])):
+        ops = [rq, rf, rq, rf, pipe.clear_page(cleared)] + [r for r, _ in after]
+        out.append(case(base_cfg(xhandlers=[xh]), ops, "clear/both-keys", [C, C, H_, H_, None] + [e for _, e in after]))
     # the page as the client names it ("/a/", "/a.", "/") is stored under the redirected URI: clearing either name clears it
     hs = [pipe.H(b"/a/index.html", kind=2, body=b"i=", spref=2, cpref=0), pipe.H(b"/a.html", kind=2, body=b"h=", spref=1, cpref=0),
           pipe.H(b"/index.html", kind=2, body=b"r=", spref=2, cpref=0)]
@@ -260,6 +285,17 @@ def ims(rng):
         for dis in (False, True):
             e2 = [(e[0], 200 if (dis and e[1] == 304) else e[1], e[2]) if e else None for e in exp]
             out.append(case(base_cfg([h], align=True, phase=300, slack=400, disable_ims=dis), ops, "ims" + ("/disabled" if dis else ""), e2))
+    # a page with a vary rule: 304 only for the variant the entry holds; a variant that must not be stored (handler: no server caching)
+    # or was never requested is computed although the client's date is not older than the entry
+    A = pipe.H(b"/v", kind=2, body=b"a=", spref=2, cpref=0, compress=False)
+    Bn = pipe.H(b"/v", kind=2, body=b"b=", spref=0, cpref=0, compress=False)
+    Cc = pipe.H(b"/v", kind=2, body=b"c=", spref=2, cpref=0, compress=False)
+    xh = pipe.XH(b"/v", b"x-v", [(b"a", A, 0, 0), (b"b", Bn, 0, 0), (b"c", Cc, 0, 0)])
+    I = (b"if-modified-since", b"@T+0")
+    ops = [pipe.req(b"/v", headers=[(b"x-v", b"a")]), pipe.req(b"/v", headers=[(b"x-v", b"b")]), pipe.req(b"/v", headers=[(b"x-v", b"b"), I]),
+           pipe.req(b"/v", headers=[(b"x-v", b"c"), I]), pipe.req(b"/v", headers=[(b"x-v", b"c"), I]), pipe.req(b"/v", headers=[(b"x-v", b"a"), I])]
+    out.append(case(base_cfg(xhandlers=[xh], vary=VARY, align=True, phase=300, slack=400), ops, "ims/vary",
+                    [("compute", 200, 0), ("compute", 200, 0), ("compute", 200, 0), ("compute", 200, 0), ("hit", 304, 0), ("hit", 304, 0)]))
     return out
 
 
